@@ -17,6 +17,15 @@ Ghost(|t: Tag| match t { Tag::Signal(s) => Some(s), _ => None::<Signal> })
 |p: &Tag| -> (vx_r: Option<(PathS, Option<FileType>)>) ensures vx_r == (match *p { Tag::Path { path, file_type } => Some((path, file_type)), _ => None::<(PathS, Option<FileType>)> }) /* OBL:C01+C03+C11.event.paths_are_the_path_tags */
 //@ closure_ghost 0
 Ghost(|t: Tag| match t { Tag::Path { path, file_type } => Some((path, file_type)), _ => None::<(PathS, Option<FileType>)> })
+//@ item Handler::signals
+//@ header
+    pub fn signals(&self) -> (r: FmIter<Signal>)
+        // the signals of an action are the signals of its events, in order, none missing (the CLI's signal gate and quit-on-interrupt read this)
+        ensures r.v@ == flat_seq(self.events@, |e: Event| filter_map_seq(e.tags@, |t: Tag| match t { Tag::Signal(s) => Some(s), _ => None::<Signal> })), // OBL:C08.handler.signals_are_all_signals_of_all_events
+//@ closure 0
+|e: &Event| -> (vx_r: FmIter<Signal>) ensures vx_r.v@ == filter_map_seq(e.tags@, |t: Tag| match t { Tag::Signal(s) => Some(s), _ => None::<Signal> }) /* OBL:C08.handler.signals_are_all_signals_of_all_events */
+//@ closure_ghost 0
+Ghost(|e: Event| filter_map_seq(e.tags@, |t: Tag| match t { Tag::Signal(s) => Some(s), _ => None::<Signal> }))
 //@ item Event::is_empty
 //@ header
     pub fn is_empty(&self) -> (r: bool)
